@@ -23,9 +23,8 @@ def _apply(d, patch):
 
 def _fresh():
     d = tempfile.mkdtemp(prefix="sa-cross-")
-    shutil.copytree(os.path.join(REPO, "eudoxia"), os.path.join(d, "eudoxia"), ignore=shutil.ignore_patterns("__pycache__"))
-    if os.path.isdir(os.path.join(REPO, "go")):
-        shutil.copytree(os.path.join(REPO, "go"), os.path.join(d, "go"))
+    from .variant import copy_tree
+    copy_tree(REPO, d)
     return d
 
 
